@@ -1,9 +1,10 @@
 (** Model of the output conversions of sweetpea/_internal/main.py
     ([_experiments_to_tuples], [_experiments_to_dicts], [_experiments_to_csv],
     [__filter_hidden], [__filter_hidden_keys], the post-processing of
-    [synthesize_trials]) and of the way [block.design] is obtained from the
-    user-declared design (cross_block.py [_desugar_factors_with_weights],
-    block.py [sep_continuous_factors]).
+    [synthesize_trials]) and of the way [block.design] (whose factors are the
+    keys of the sampled experiments, hidden ones included) is obtained from the
+    user-declared design [block.orig_design] (cross_block.py
+    [_desugar_factors_with_weights], block.py [sep_continuous_factors]).
 
     Executable definitions only; proofs are in Out/ConvertProofs.v.
     An experiment is a Python dict from factor names to equally long lists of
@@ -38,7 +39,7 @@ Definition fname_eqb (a b : fname) : bool :=
   end.
 
 (** Python exceptions that the modelled functions can raise. *)
-Inductive err := KeyError | IndexError | ZeroDivisionError | RuntimeError | TypeError.
+Inductive err := KeyError | IndexError | RuntimeError.
 
 Inductive res (A : Type) := Ok (a : A) | Err (e : err).
 Arguments Ok {A} a.
@@ -144,13 +145,12 @@ Definition block_design (crossings : list (list string)) (d : list ufactor) : li
 Definition filter_hidden (design : list fname) : list fname :=
   filter (fun n => negb (is_hidden n)) design.
 
-(** [[f.name for f in __filter_hidden(block.design)]]: the keys all three
-    conversions use. *)
-Definition conv_keys (crossings : list (list string)) (d : list ufactor) : list fname :=
-  filter_hidden (block_design crossings d).
-
-(** The names the user declared, in declaration order. *)
+(** [block.orig_design]: the factors the user declared, in declaration order. *)
 Definition user_names (d : list ufactor) : list fname := map (fun f => Plain (uname f)) d.
+
+(** [[f.name for f in __filter_hidden(block.orig_design)]]: the keys all three
+    conversions use. *)
+Definition conv_keys (d : list ufactor) : list fname := filter_hidden (user_names d).
 
 (* ------------------------------------------------------------------ *)
 (** * The conversions *)
@@ -223,9 +223,9 @@ Definition csv_of (cols : list fname) (exps : list experiment)
   mapM (csv_one cols) exps.
 
 (** The public functions. *)
-Definition experiments_to_tuples cr d exps := tuples_of (conv_keys cr d) exps.
-Definition experiments_to_dicts cr d exps := dicts_of (conv_keys cr d) exps.
-Definition save_experiments_csv cr d exps := csv_of (conv_keys cr d) exps.
+Definition experiments_to_tuples d exps := tuples_of (conv_keys d) exps.
+Definition experiments_to_dicts d exps := dicts_of (conv_keys d) exps.
+Definition save_experiments_csv d exps := csv_of (conv_keys d) exps.
 
 (* ------------------------------------------------------------------ *)
 (** * Post-processing in [synthesize_trials] *)
